@@ -325,19 +325,28 @@ def finish(run, level, coverage, assumptions, kn, viol, confirm=None, extra=None
 
 
 def library_races(stderr):
-    """race detector reports in which at least one of the two conflicting accesses is made by library code
-    (top frame in github.com/aldas/go-modbus-client/...); races inside the harness itself are harness bugs"""
+    """race detector reports for which the library is responsible: BOTH conflicting accesses happen in library
+    code or in code the library calls (a library frame is on both stacks) - e.g. a connection object published
+    by Connect without synchronisation and used by Do.  A race in which one access is made by a harness
+    goroutine that does not run under the library is a bug of the harness: exit 2."""
     reps = []
     for block in stderr.split("WARNING: DATA RACE")[1:]:
         block = block.split("==================")[0]
-        tops = []
         lines = block.splitlines()
-        for i, ln in enumerate(lines):
-            if ("Read at" in ln or "Write at" in ln or "Previous read at" in ln or "Previous write at" in ln) and i + 1 < len(lines):
-                tops.append(lines[i + 1].strip())
-        if any(t.startswith("github.com/aldas/go-modbus-client") for t in tops):
+        stacks = []
+        cur = None
+        for ln in lines:
+            if ("Read at" in ln or "Write at" in ln or "Previous read at" in ln or "Previous write at" in ln):
+                cur = []
+                stacks.append(cur)
+            elif ln.strip() == "" or ln.startswith("Goroutine"):
+                cur = None
+            elif cur is not None and not ln.startswith("      "):
+                cur.append(ln.strip())
+        lib = [any(f.startswith("github.com/aldas/go-modbus-client") for f in st) for st in stacks[:2]]
+        if len(lib) == 2 and all(lib):
             reps.append("WARNING: DATA RACE" + block[:2500])
-        elif tops and all(t.startswith("main.") or t.startswith("verifharness") for t in tops):
+        elif stacks:
             raise Infra("data race inside the harness itself:\n" + block[:2500])
     return reps
 
